@@ -17,7 +17,7 @@ P = {
          "Holds on the enumerated alphabet only. Trusted: rustc, num-bigint, reference model.",
          "DESIGN.md 5 (C12)"),
  "C14": (True, GRID + "; squares, non-residues, both axes of Fq2 on both sides of q/2, every small element of Fq2, halving operands with carry-boundary stored words, every small x as a compressed G1 encoding",
-         "Fq::sqrt and Fq2::sqrt on a, a^2, 2a^2, -a^2 / x, x^2, nu*x^2 for every alphabet member and on every real and purely imaginary element of the axis alphabet (all four residuosity x half-plane classes required non-empty), on inputs whose internal halving operands (-a, a+w, a-w) have stored words with one-runs across 1-3 limb boundaries, decided by Euler's / the norm criterion with Some(s) squared back; G1::from_compressed on EVERY x below the bound.",
+         "Fq::sqrt and Fq2::sqrt on a, a^2, 2a^2, -a^2 / x, x^2, nu*x^2 for every alphabet member and on every real and purely imaginary element of the axis alphabet (all four residuosity x half-plane classes required non-empty), on inputs whose internal halving operands (-a, a+w, a-w) have stored words with one-runs across 1-3 limb boundaries, decided by Euler's / the norm criterion with Some(s) squared back; G1::from_compressed on EVERY x below the bound; 14 cases re-executed each as the first square root of a fresh process (initial process-wide state).",
          "Which root is returned is unconstrained. Trusted: rustc, num-bigint.",
          "DESIGN.md 5 (C14)"),
  "C13": (True, GRID + "; every length 0..=70, every byte string of length <= 2, every short string over a 14-character alphabet, every Unicode scalar value in four string contexts, every bit index 0..=300",
@@ -73,7 +73,7 @@ P = {
          "Enumerated alphabet only. Trusted: rustc, num-bigint, reference model.",
          "DESIGN.md 5 (C10)"),
  "C15": (True, GRID + "; the complete ==/!= table over all concrete values, normalize / affine conversion on every value",
-         "Every ordered pair over all concrete values (including identity stored as (x,y,0) for several x,y, P vs -P, P vs lambda*P) for ==/!= in both orders decided by discrete logs; is_zero, normalize, AffineG::from_jacobian, From<AffineG> on every value.",
+         "Every ordered pair over all concrete values (including identity stored as (x,y,0) for several x,y, P vs -P, P vs lambda*P) for ==/!= in both orders decided by discrete logs; is_zero, normalize, AffineG::from_jacobian, From<AffineG> on every value; every special rescaling (2, -1, cube roots of unity, sqrt(-1), stored-word specials; G2 real and purely imaginary) against a small value set in both orders.",
          "Enumerated alphabet only. Trusted: rustc, num-bigint, reference model.",
          "DESIGN.md 5 (C15)"),
  "C06": (True, GRID + "; products of limb-boundary alphabets for Fq and Fr",
